@@ -23,4 +23,24 @@ fn main() {
     let mut bytes = good.to_vec();
     bytes[10] ^= 0x10;
     println!("payload bit flipped: Address::from_bytes -> ok={}", Address::from_bytes(&bytes).is_ok());
+
+    // C19-2: an address longer than 132 bytes does not survive base58
+    for n in [122usize, 123] {
+        let payload = vec![0u8; n];
+        let crc = crc32(&payload);
+        let a = ByronAddress::new(&payload, crc);
+        let s = a.to_base58();
+        println!("{}-byte address: from_base58(to_base58()) -> {:?}", a.to_vec().len(), ByronAddress::from_base58(&s).map(|b| b == a));
+    }
+}
+
+fn crc32(data: &[u8]) -> u32 {
+    let mut crc: u32 = 0xffff_ffff;
+    for b in data {
+        crc ^= *b as u32;
+        for _ in 0..8 {
+            crc = if crc & 1 == 1 { (crc >> 1) ^ 0xEDB8_8320 } else { crc >> 1 };
+        }
+    }
+    !crc
 }
